@@ -16,7 +16,8 @@ RULE = ("TC19 messages built field by field from the DO-260B layout: subtype 1-4
         "velocity / airborne_velocity / surface_velocity / speed_heading / altitude_diff with and without source=True. Oracle: the encoded quantities "
         "(speed within 1 kt of hypot, track atan2 to 1e-9, heading N*360/1024 iff status, airspeed N-1 (x4) or None iff N=0, VR +-(N-1)*64 or None, "
         "difference +-(N-1)*25 or None iff N=0 (N=127 unconstrained), movement bin of DO-260B table, track N*360/128 iff status). "
-        "non-trivial = a zero field, a sign bit set, a supersonic subtype, heading status 0, or a movement breakpoint")
+        "non-trivial = a zero field, a sign bit set, a supersonic subtype, heading status 0, or a movement breakpoint"
+        ' Also: helper calls on the same string first, one constant context per sweep, 965 real velocity frames judged by the reference field decoding (leg corpus).')
 ASSUMPTIONS = ["surface speed may be any representative inside the DO-260B movement bin [lower, upper)", "TC19 subtypes 0 and 5-7 are reserved and only covered by C14"]
 
 F10 = st.one_of(st.sampled_from([0, 1, 2, 1022, 1023]), gen.uint(0, 1023), gen.uint(0, 1023))
